@@ -16,6 +16,16 @@ TEXT = {
         "note": "Trusted: Lean kernel, correspondence harness, the independent re-derivation rule for bytesInOutput (unminified ESM only).",
         "technique": "Lean 4 proof on hand-written model + differential correspondence; metafile-vs-output search",
     },
+    "C03": {
+        "level": "Lean theorem for every float64 value (and every value of Go's unspecified out-of-range conversion) that the compile-time ToInt32/ToUint32 equal ECMA-262's, tied by correspondence over float bit-pattern classes; behaviour preservation of the minifier as a whole is searched with a Node differential over generated probe programs, not proved.",
+        "note": "Trusted: Lean kernel, correspondence harness, Node 20 as reference semantics. One recorded known finding (unused object literal with computed key).",
+        "technique": "Lean 4 proof on hand-written model + differential correspondence; Node trace differential search",
+    },
+    "C14": {
+        "level": "Lean theorems over the compat table REGENERATED from js_table.go on every run: ES-target monotonicity of the unsupported-feature set, supported-override algebra in both directions, every feature constant has a table row and fits the bit mask; UnsupportedJSFeatures/ApplyOverrides tied by correspondence. That every lowering pass removes its feature is checked by an independent AST feature scanner over outputs (search).",
+        "note": "Trusted: Lean kernel, go/ast extractor (output is readable Lean literals), correspondence harness, esbuild's parser as AST provider for the scanner.",
+        "technique": "Lean 4 proof over regenerated facts + differential correspondence; AST feature-scanner search",
+    },
 }
 
 _pending = "check not built yet in this session (work in progress; the Lean-proof technique does apply — see DESIGN.md §4)"
